@@ -717,9 +717,15 @@ func codecMode(args []string) int {
 	}
 	digits, sum := countsDigits(circ)
 
+	// -extra <curve> restricts the run to one curve (the check runs the four
+	// curves as parallel shards)
+	sel := curves
+	if cf.Extra != "" {
+		sel = []curveInfo{curveByName(cf.Extra)}
+	}
 	// the real sessions the payloads come from
 	sessions := map[string]*session{}
-	for k, ci := range curves {
+	for k, ci := range sel {
 		a, b := inputPair(rng, 0)
 		s, err := runSession(ci, a, b, rng.U64(), rng.U64(), rng.U64())
 		if err != nil {
@@ -728,14 +734,14 @@ func codecMode(args []string) int {
 		}
 		sessions[ci.name] = s
 	}
-	o.Op("circ "+digits, fmt.Sprintf("circ n=%d sum=%d r3len=%d", len(circ.Gates), sum, len(sessions["P-256"].r3b)))
+	o.Op("circ "+digits, fmt.Sprintf("circ n=%d sum=%d r3len=%d", len(circ.Gates), sum, len(sessions[sel[0].name].r3b)))
 	for _, ci := range curves {
 		p := ci.curve.Params()
 		o.Op(fmt.Sprintf("curve %s %s %s %d", ci.name, p.P.Text(16), p.B.Text(16), (p.BitSize+7)/8), "curve ok")
 	}
 
 	var bases []baseMsg
-	for _, ci := range curves {
+	for _, ci := range sel {
 		s := sessions[ci.name]
 		for _, kb := range []struct {
 			k string
@@ -750,7 +756,7 @@ func codecMode(args []string) int {
 	}
 	// R3 does not depend on the curve; one real payload per curve in the
 	// thorough tier, P-256 and P-521 in the quick tier.
-	for _, ci := range curves {
+	for _, ci := range sel {
 		if thorough || ci.name == "P-256" {
 			s := sessions[ci.name]
 			bases = append(bases, baseMsg{kind: "R3", ci: ci, slot: ci.name + ".R3.sess", data: s.r3b, sess: s})
@@ -905,7 +911,7 @@ func codecMode(args []string) int {
 
 	// encoder ops on hand-made structures (name defaulting / mismatch)
 	for k := 0; k < 40; k++ {
-		ci := curves[k%4]
+		ci := sel[k%len(sel)]
 		r := rng.Fork()
 		names := []string{"", ci.name, otherCurve(ci, r).name, "x"}
 		cn := names[r.Intn(len(names))]
